@@ -1645,12 +1645,21 @@ def rule_absentmask(ctx) -> RuleResult:
     if site is None:
         raise AnalysisError("groupby_reduce: the default 'min_count_ = 1' branch was not found (anchor)")
     multi = any(isinstance(c, ast.Call) and norm(c.func) == "_factorize_multiple" for c in ast.walk(f.node))
+    # a leaf that names a local flag (bound once, to a boolean expression) stands for that expression
+    flags = {}
+    for a in walk_own(f.node):
+        if isinstance(a, ast.Assign) and len(a.targets) == 1 and isinstance(a.targets[0], ast.Name) and isinstance(a.value, (ast.BoolOp, ast.Compare)) and a.lineno < site.lineno:
+            flags.setdefault(a.targets[0].id, []).append(a.value)
     leaves = []
     work = [site.test]
+    seen = set()
     while work:
         e = work.pop()
         if isinstance(e, ast.BoolOp):
             work.extend(e.values)
+        elif isinstance(e, ast.Name) and len(flags.get(e.id, ())) == 1 and e.id not in seen:
+            seen.add(e.id)
+            work.append(flags[e.id][0])
         else:
             leaves.append(norm(e))
     for reason, pred in _ABSENT_REASONS.items():
